@@ -450,3 +450,94 @@ Proof.
   - intros this n d n' d' H. destruct member_owner as (_ & _ & Hm & _).
     exact (map_member_answer _ _ _ _ _ _ _ (Hm _ _ _ _ _ _ H)).
 Qed.
+
+(* ------------------------------------------------------------------ *)
+(* the entry loop: when no two entries are sent to the same name, the remapped jar has one entry
+   per input entry, in the same order, under the remapped name, holding what [f] made of the content *)
+Lemma im_insert_fresh {V} k (v : V) l : ~ In k (map fst l) -> im_insert k v l = l ++ [(k, v)].
+Proof.
+  induction l as [|[k' v'] l IH]; cbn [im_insert map fst In app]; intros Hn; [reflexivity|].
+  destruct (str_eqb_spec k k') as [->|Hne]; [exfalso; apply Hn; left; reflexivity|].
+  rewrite IH; [reflexivity|]. intros Hin. apply Hn. right. exact Hin.
+Qed.
+
+Fixpoint entries_spec {A B} (R : remapper) (f : str -> A -> res B) (es : list (str * A)) : res (list (str * B)) :=
+  match es with
+  | [] => Ok []
+  | (name, a) :: es' =>
+      match entry_name R name, f name a, entries_spec R f es' with
+      | Ok n', Ok b, Ok l => Ok ((n', b) :: l)
+      | _, _, _ => Err
+      end
+  end.
+
+Lemma remap_entries_from_spec {A B} R (f : str -> A -> res B) es :
+  forall acc l, entries_spec R f es = Ok l -> NoDup (map fst acc ++ map fst l) ->
+                remap_entries_from R f es acc = Ok (acc ++ l).
+Proof.
+  induction es as [|[name a] es IH]; intros acc l; cbn [entries_spec remap_entries_from].
+  - intros [= <-] _. rewrite app_nil_r. reflexivity.
+  - destruct (entry_name R name) as [n'|]; [|discriminate].
+    destruct (f name a) as [b|]; [|discriminate].
+    destruct (entries_spec R f es) as [l'|] eqn:E; [|discriminate].
+    intros [= <-] Hnd. cbn [map fst] in Hnd.
+    assert (Hfresh : ~ In n' (map fst acc)).
+    { intros Hin. apply NoDup_remove_2 in Hnd. apply Hnd. apply in_or_app. left. exact Hin. }
+    rewrite (im_insert_fresh _ _ _ Hfresh).
+    rewrite (IH (acc ++ [(n', b)]) l' eq_refl).
+    + rewrite <- app_assoc. reflexivity.
+    + rewrite map_app. cbn [map fst]. rewrite <- app_assoc. cbn [app].
+      (* NoDup (acc ++ n' :: l')  from  NoDup (acc ++ n' :: l') *)
+      exact Hnd.
+Qed.
+
+Definition entries_in_order_stmt : Prop :=
+  forall (A B : Type) (R : remapper) (f : str -> A -> res B) (es : list (str * A)) (l : list (str * B)),
+    entries_spec R f es = Ok l -> NoDup (map fst l) -> remap_entries R f es = Ok l.
+Lemma entries_in_order : entries_in_order_stmt.
+Proof.
+  intros A B R f es l Hs Hnd. unfold remap_entries.
+  rewrite (remap_entries_from_spec R f es [] l Hs); [reflexivity|exact Hnd].
+Qed.
+
+(* an error in a name or in a content makes the whole call fail (the `?`s of the loop) *)
+Lemma remap_entries_from_err {A B} R (f : str -> A -> res B) es :
+  forall acc, entries_spec R f es = Err -> remap_entries_from R f es acc = Err.
+Proof.
+  induction es as [|[name a] es IH]; intros acc; cbn [entries_spec remap_entries_from]; [discriminate|].
+  destruct (entry_name R name) as [n'|]; [|reflexivity].
+  destruct (f name a) as [b|]; [|reflexivity].
+  destruct (entries_spec R f es) as [l'|] eqn:E; [discriminate|]. intros _. apply IH. reflexivity.
+Qed.
+Definition entries_err_stmt : Prop :=
+  forall (A B : Type) (R : remapper) (f : str -> A -> res B) (es : list (str * A)),
+    entries_spec R f es = Err -> remap_entries R f es = Err.
+Lemma entries_err : entries_err_stmt.
+Proof. intros A B R f es H. apply remap_entries_from_err. exact H. Qed.
+
+(* ------------------------------------------------------------------ *)
+(* non-vacuity: a concrete remapper and concrete references *)
+Definition ex_R : remapper :=
+  mkRemapper (fun c => Ok (if str_eqb c [97;47;65] then Some [120;47;89] else None))            (* a/A -> x/Y *)
+             (fun o n d => Ok (if str_eqb o [97;47;65] && str_eqb n [102] then Some ([103], [73]) else None))   (* a/A.f:I -> g *)
+             (fun _ _ _ => Ok None).
+Definition nonvacuous : Prop :=
+  entry_name ex_R ([97;47;65] ++ dot_class) = Ok ([120;47;89] ++ dot_class) /\
+  entry_name ex_R [77;69;84;65;45;73;78;70;47] = Ok [77;69;84;65;45;73;78;70;47] /\                (* META-INF/ *)
+  remap_at ex_R MMethodDesc [] (VName [40;76;97;47;65;59;41;91;76;97;47;65;59]) =
+    Ok (VName [40;76;120;47;89;59;41;91;76;120;47;89;59]) /\                                     (* (La/A;)[La/A; *)
+  remap_at ex_R MFieldRef [] (VRef ([97;47;65], [102], [73])) = Ok (VRef ([120;47;89], [103], [73])) /\
+  remap_at ex_R MMethodRef [] (VRef ([91;76;97;47;65;59], [99], [40;41;86])) = Ok (VRef ([91;76;120;47;89;59], [99], [40;41;86])) /\
+  remap_at ex_R MEnumConst [] (VEnumC [76;97;47;65;59] [102]) = Ok (VEnumC [76;120;47;89;59] [103]) /\
+  (exists r, In r rows /\ known_row r = false /\ carries_ref type_defs r = true) /\
+  (exists r, In r rows /\ known_row r = false /\ carries_ref type_defs r = false).
+Lemma nonvacuous_holds : nonvacuous.
+Proof.
+  unfold nonvacuous. repeat match goal with |- _ /\ _ => split end; try (vm_compute; reflexivity).
+  - destruct (row_at "ClassFile"%string ""%string "name"%string) as [r|] eqn:E; [|vm_compute in E; discriminate].
+    exists r. split; [exact (row_at_In _ _ _ _ E)|]. rewrite carries_RT. vm_compute in E. injection E as <-.
+    split; vm_compute; reflexivity.
+  - destruct (row_at "ClassFile"%string ""%string "access"%string) as [r|] eqn:E; [|vm_compute in E; discriminate].
+    exists r. split; [exact (row_at_In _ _ _ _ E)|]. rewrite carries_RT. vm_compute in E. injection E as <-.
+    split; vm_compute; reflexivity.
+Qed.
